@@ -770,9 +770,13 @@ class KlongInterpreter():
         cache_key = (x, self._module)
         cached = self._parse_cache.get(cache_key)
         if cached is None:
+            module_before = self._module
             i, prog = self.prog(x)
             cached = prog[0] if len(prog) == 1 else prog
-            self._parse_cache[cache_key] = cached
+            # .module(...) switches the module while it is parsed: such a text must be parsed
+            # again every time, or the switch would be skipped on re-evaluation
+            if self._module == module_before:
+                self._parse_cache[cache_key] = cached
 
         # Try compiled path (single expressions only)
         if type(cached) is not list:
